@@ -4,7 +4,7 @@
 PROD_T G_px, G_py; ITV_T *G_x1s, *G_x2s, *G_y1s, *G_y2s;
 int G_psatX0, G_psatY0, G_sat_x1_0, G_sat_x2_0, G_sat_y1_0, G_sat_y2_0;
 ITV_T G_xs[BOX_N], G_ys[BOX_N]; BOX_T G_bx, G_by; ex_t G_pn[BOX_N]; int G_ps[BOX_N]; ITV_T G_xs0[BOX_N]; uint32_t G_fx0;
-int G_satX0, G_satY0, G_emptyX0, G_emptyY0;
+int G_satX0, G_satY0, G_emptyX0, G_emptyY0; ex_t G_qn[BOX_N]; int G_qs[BOX_N]; int32_t G_t; int G_satQ0;
 void *malloc(unsigned long); void free(void *);
 uint8_t *_Znwm(uint64_t n) { uint8_t *p = (uint8_t *)malloc(n); __CPROVER_assume(p != 0); return p; }
 void _ZdlPv(uint8_t *p) { free(p); }
